@@ -26,6 +26,7 @@ import (
 	"verif/harness/dvsim"
 	"verif/mc/explore"
 	"verif/mc/report"
+	"verif/shim/vsched"
 )
 
 type cfgDef struct {
@@ -43,8 +44,23 @@ type cfgDef struct {
 	failFetch    bool  // fetch-timeout deviation
 	failMgmt     []int // routers whose forwarder may reject one management command (deviation Fm)
 	exchange     bool  // X(i<j) events in the alphabet
-	dq, dt       int   // depth quick / thorough
-	dev          int   // deviation bound (faults, restarts, bursts, fetch failures)
+	// holds: task-delay deviations. One operation per history runs with the tasks spawned from one
+	// `go` statement site (and everything queued behind them or spawned later in that operation)
+	// held back: Xh(i<j) the ribUpdate spawned by advertDataHandler (advertisement stored, not yet
+	// processed), Xr(i<j) the fibUpdate/notify/prefix-fetch closure spawned by ribUpdate (RIB changed,
+	// routes not yet), Dh(i) the fibUpdate closure spawned by checkDeadNeighbors (neighbour removed,
+	// routes not yet), Fsh(i<d) the fibUpdate spawned by processPrefixData (prefix table changed,
+	// routes not yet), Fah/Fbh(i<j) the fibUpdate and advertisement fetch spawned by
+	// advertSyncOnInterest (neighbour face changed, routes not yet). Whatever events follow (exchanges, faults, dead checks, prefix operations),
+	// the held tasks run only at the default event Rl, or at DcR(i): they race checkDeadNeighbors
+	// for dv.mutex. The mirror clause is evaluated when nothing is held.
+	holds bool
+	// lateUp: links that are down while the network converges and come up just before the initial
+	// state, with only their two end points having exchanged advertisements: the other routers have
+	// not yet fetched their neighbours' newest advertisement (a non-fresh initial state)
+	lateUp [][2]int
+	dq, dt int // depth quick / thorough
+	dev    int // deviation bound (faults, restarts, bursts, fetch failures)
 }
 
 var defs = map[string]cfgDef{
@@ -75,6 +91,23 @@ var defs = map[string]cfgDef{
 	// of r1 rejects one rib command (deviation Fm(1,k): the (k+1)-th next one); retries that the
 	// management thread defers run when time passes (Tk)
 	"mirror-retry": {graph: "n2:01", prefixes: map[int][]string{0: {"/p1"}}, announced: true, failMgmt: []int{1}, burstAt: -1, dq: 8, dt: 10, dev: 2},
+	// installer under delayed tasks: line r0 - r1 - r2 whose link 1-2 came up just before the initial
+	// state (r0 has not yet fetched r1's newest advertisement), /p1 announced at r2; one operation per
+	// history runs with the tasks of one go-statement site held back (Xh, Xr, Dh, Fh) past arbitrary
+	// later events (link 0-1 failing, dead checks, prefix operations) until Rl / DcR
+	"mirror-hold": {graph: "n3:01-12", lateUp: [][2]int{{1, 2}}, prefixes: map[int][]string{2: {"/p1"}}, announced: true, faces: [][2]int{{0, 1}},
+		faults: [][2]int{{0, 1}}, burstAt: -1, exchange: true, holds: true, dq: 5, dt: 7, dev: 2},
+	// installer, boundary names of the announced-prefix universe: r1 announces / withdraws the
+	// zero-component default prefix "/", the network name (a prefix of every router name), its own
+	// router name and its own routing prefix (the name the installer derives itself for r1); observer
+	// r0 hears r1 on either face, the link may fail (everything of r1 has to go)
+	"mirror-names": {graph: "n2:01", prefixes: map[int][]string{1: {"/", "/ndn", "/ndn/r1", "/ndn/r1/32=DV"}}, faces: [][2]int{{0, 1}},
+		faults: [][2]int{{0, 1}}, burstAt: -1, exchange: true, dq: 5, dt: 7, dev: 2},
+	// boundary names across routers: line r0 - r1 - r2; "/" multi-homed at r1 and r2 (both behind the
+	// same face of r0, at different costs); r2 also announces r1's routing prefix (the name the
+	// installer derives for r1 collides with a prefix announced by another router) and r0's own
+	"mirror-names3": {graph: "n3:01-12", prefixes: map[int][]string{1: {"/"}, 2: {"/", "/ndn/r1/32=DV", "/ndn/r0/32=DV"}},
+		faults: [][2]int{{1, 2}}, burstAt: -1, exchange: true, dq: 4, dt: 6, dev: 2},
 	// log: publisher r1, peer r0; bursts across the snapshot threshold; failing fetches; publisher restart
 	"log-pair": {graph: "n2:01", routerPrefix: "/ndn/site/dept", prefixes: map[int][]string{1: {"/p1", "/p2"}}, burstAt: 1, bursts: []int{98, 99, 100, 101},
 		restarts: []int{1}, failFetch: true, dq: 7, dt: 9, dev: 2},
@@ -104,6 +137,9 @@ func (y *sys) initSim(s *dvsim.Sim) {
 	for _, e := range y.d.downFirst {
 		s.LinkDown(e[0], e[1])
 	}
+	for _, e := range y.d.lateUp {
+		s.LinkDown(e[0], e[1])
+	}
 	// converge: round-robin exchanges, then prefix sync
 	for round := 0; round < 40; round++ {
 		for a := 0; a < s.G.N; a++ {
@@ -127,6 +163,13 @@ func (y *sys) initSim(s *dvsim.Sim) {
 				s.Readvertise(r, p, true)
 				s.EndOp()
 			}
+		}
+	}
+	for _, e := range y.d.lateUp {
+		s.LinkUp(e[0], e[1])
+		for k := 0; k < 3; k++ {
+			s.Exchange(e[k%2], e[1-k%2])
+			s.EndOp()
 		}
 	}
 	s.CheckProgress(50) // a failure here is reported by the closure check of the first transitions
@@ -203,6 +246,47 @@ func (y *sys) ops(s *dvsim.Sim) []explore.Op {
 	for a := 0; a < n; a++ {
 		if s.Nodes[a].Up && s.HasSilentNeighbor(a) {
 			add(false, "Dc(%d)", a)
+		}
+	}
+	if y.d.holds {
+		if len(s.Held) > 0 {
+			add(false, "Rl")
+			for a := 0; a < n; a++ {
+				if s.Nodes[a].Up && s.HasSilentNeighbor(a) && s.HeldAt(a) {
+					add(false, "DcR(%d)", a)
+				}
+			}
+		} else {
+			sn := s.Snap()
+			for a := 0; a < n; a++ {
+				for b := 0; b < n; b++ {
+					if a != b && s.LinkLive(a, b) && !sn.Fresh(a, b) {
+						add(true, "Xh(%d<%d)", a, b)
+						add(true, "Xr(%d<%d)", a, b)
+					}
+				}
+			}
+			for a := 0; a < n; a++ {
+				if s.Nodes[a].Up && s.HasSilentNeighbor(a) {
+					add(true, "Dh(%d)", a)
+				}
+			}
+			for a := 0; a < n; a++ {
+				if s.Nodes[a].Up {
+					for _, d := range s.PfxTargets(a) {
+						add(true, "Fsh(%d<%d)", a, d)
+					}
+				}
+			}
+			for _, f := range y.d.faces {
+				if s.LinkLive(f[0], f[1]) {
+					if !s.Alt[f] {
+						add(true, "Fah(%d<%d)", f[0], f[1])
+					} else {
+						add(true, "Fbh(%d<%d)", f[0], f[1])
+					}
+				}
+			}
 		}
 	}
 	for _, e := range y.d.faults {
@@ -287,6 +371,50 @@ func applyOp(s *dvsim.Sim, nm string) {
 		if s.LinkLive(a, b) {
 			s.Exchange(a, b)
 		}
+	case strings.HasPrefix(nm, "Xh("), strings.HasPrefix(nm, "Xr("):
+		// the exchange with the tasks spawned by advertDataHandler (Xh: the ribUpdate for the stored
+		// advertisement) / by ribUpdate (Xr: fibUpdate, notification, prefix fetches) held back
+		fmt.Sscanf(nm[2:], "(%d<%d)", &a, &b)
+		if s.LinkLive(a, b) && len(s.Held) == 0 {
+			if nm[1] == 'h' {
+				s.HoldBefore("advertDataHandler", nm)
+				s.HeldNbr = b
+			} else {
+				s.HoldBefore(".ribUpdate", nm)
+			}
+			s.Exchange(a, b)
+		}
+	case strings.HasPrefix(nm, "Dh("):
+		// the dead-neighbour check with the fibUpdate it spawns held back
+		fmt.Sscanf(nm, "Dh(%d)", &a)
+		if len(s.Held) == 0 {
+			s.HoldBefore("checkDeadNeighbors", nm)
+		}
+		s.DeadCheck(a)
+	case strings.HasPrefix(nm, "Fah("), strings.HasPrefix(nm, "Fbh("):
+		// the neighbour is heard on the other face; the tasks spawned by advertSyncOnInterest held back
+		fmt.Sscanf(nm[3:], "(%d<%d)", &a, &b)
+		if len(s.Held) == 0 {
+			s.HoldBefore("advertSyncOnInterest", nm)
+		}
+		if nm[1] == 'a' {
+			s.Alt[[2]int{a, b}] = true
+		} else {
+			delete(s.Alt, [2]int{a, b})
+		}
+		s.Ping(a, b, !s.Passive[[2]int{a, b}])
+	case strings.HasPrefix(nm, "Fsh("):
+		// prefix data applied to the prefix table, the fibUpdate spawned for it held back
+		fmt.Sscanf(nm, "Fsh(%d<%d)", &a, &b)
+		if len(s.Held) == 0 {
+			s.HoldBefore("processPrefixData", nm)
+		}
+		s.PfxFetchStep(a, b, false)
+	case nm == "Rl":
+		s.Release()
+	case strings.HasPrefix(nm, "DcR("):
+		fmt.Sscanf(nm, "DcR(%d)", &a)
+		s.DeadCheckRace(a)
 	case strings.HasPrefix(nm, "Fa("):
 		fmt.Sscanf(nm, "Fa(%d<%d)", &a, &b)
 		s.Alt[[2]int{a, b}] = true
@@ -335,6 +463,9 @@ func applyOp(s *dvsim.Sim, nm string) {
 		panic("unknown op " + nm)
 	}
 	s.EndOp()
+	if os.Getenv("VERIF_C19_TRACE") != "" { // development aid: what an operation left held / parked
+		fmt.Fprintf(os.Stderr, "C19 trace: %s -> held=%d timers=%v\n", nm, len(s.Held), s.TimersPending())
+	}
 }
 
 func (y *sys) Do(i any, op explore.Op) { i.(*dvsim.Lazy).Do(op.Name) }
@@ -372,7 +503,7 @@ func (y *sys) Apply(i any, op explore.Op) []report.Violation {
 	y.m.Nondet = nil
 	seen := map[string]bool{}
 	sn := s.Snap()
-	if !s.TimersPending() { // the mirror clause speaks about the routes held once retries have run
+	if !s.TimersPending() && len(s.Held) == 0 { // the mirror clause speaks about the routes held once retries and spawned tasks have run
 		v = append(v, toViolations(sn.CheckMirror(), seen)...)
 	}
 	v = append(v, toViolations(sn.CheckLog(), seen)...)
@@ -385,6 +516,10 @@ func (y *sys) CheckState(i any) []report.Violation {
 	l := i.(*dvsim.Lazy)
 	s := l.Sim()
 	seen := map[string]bool{}
+	if len(s.Held) > 0 {
+		s.Release() // a fair schedule does not delay a task for ever
+		s.EndOp()
+	}
 	v := toViolations(s.CheckProgress(400), seen)
 	s.RunTimers() // deferred retries of management commands
 	v = append(v, toViolations(s.Snap().CheckMirror(), seen)...)
@@ -405,6 +540,9 @@ func build(cfg string) explore.System {
 		report.Fatal("%v", err)
 	}
 	y := &sys{name: cfg, d: d, g: g, opsCache: map[string][]explore.Op{}}
+	if d.holds {
+		vsched.RecordSites = true // the hold deviations cut the task queue by spawning site
+	}
 	y.m = dvsim.NewMachineOpt(g, y.initSim, applyOp, dvsim.Options{RouterPrefix: d.routerPrefix}, "C19|"+cfg)
 	y.m.Probe(func(s *dvsim.Sim) []string {
 		var def, dev []string
@@ -428,9 +566,9 @@ func main() {
 	if _, w := explore.IsWorker(); !w {
 		dvsim.ResetFallbackDir("C19")
 	}
-	// the two most expensive configurations last: the budget is shared evenly over the configurations
+	// cheapest first, the two most expensive configurations last: the budget is shared evenly over the configurations
 	// still to run, so on a loaded machine they get whatever the cheap ones did not need
-	order := []string{"mirror-star3", "mirror-diamond", "mirror-kite", "mirror-retry", "mirror-tri", "mirror-square", "log-pair", "mirror-line3", "log-join"}
+	order := []string{"mirror-diamond", "mirror-kite", "mirror-retry", "mirror-hold", "mirror-names", "mirror-names3", "mirror-star3", "mirror-tri", "mirror-square", "log-pair", "mirror-line3", "log-join"}
 	explore.Main(explore.Spec{
 		ID: "C19", PanicClause: "C19.panic", Build: build,
 		Configs: func(th bool) []explore.Config {
@@ -460,21 +598,21 @@ func main() {
 			}
 			return 100 * time.Second
 		},
-		Rule: "BFS over histories of prefix announce/withdraw/burst, prefix sync, prefix fetch (success/timeout), advertisement exchange, neighbour face change (active/passive), link failure/repair + dead-neighbour check and router restart on real dv.Router objects, from the converged state of 9 small configurations (one of them with a multi-homed prefix whose two announcers sit behind the same face at the same cost); after every transition: drained nfdc command stream replayed into a (name,face) route table vs from-scratch computation from the current tables; peers' reconstructed prefix sets vs publisher's set at the peer's log position; closure of sync+fetch steps must reach the end of the log; PLUS component level (in-process BFS on the real table.Fib + nfdc queue, driven as Router.fibUpdate drives them: UnmarkAll, UpdateH/MarkH per name, RemoveUnmarked): every pass history to a fixpoint over exhaustive next-hop list universes (raw lists of <= 3 entries over 3 faces x costs {1,2,infinity}; concatenations of <= 2 (best, second-best) pairs, duplicates included), the same without state merging to depth 3/4 passes, and passes that change more routes than the command queue holds with the real management loop in a goroutine and the slowest admissible forwarder",
+		Rule: "BFS over histories of prefix announce/withdraw/burst, prefix sync, prefix fetch (success/timeout), advertisement exchange, neighbour face change (active/passive), link failure/repair + dead-neighbour check and router restart on real dv.Router objects, from the converged state of 12 small configurations (one of them with a multi-homed prefix whose two announcers sit behind the same face at the same cost; two whose announced-prefix universe consists of boundary names: the zero-component prefix \"/\", the network name, the announcer's router name, routing prefixes of the announcer / another router / the observer; one that starts from a non-fresh state and delays the tasks of one go-statement site - advertDataHandler, ribUpdate, checkDeadNeighbors, processPrefixData, advertSyncOnInterest - of one operation per history past arbitrary later events until a release event or a race with the dead-neighbour check); after every transition: drained nfdc command stream replayed into a (name,face) route table vs from-scratch computation from the current tables; peers' reconstructed prefix sets vs publisher's set at the peer's log position; closure of sync+fetch steps must reach the end of the log; PLUS component level (in-process BFS on the real table.Fib + nfdc queue, driven as Router.fibUpdate drives them: UnmarkAll, UpdateH/MarkH per name, RemoveUnmarked): every pass history to a fixpoint over exhaustive next-hop list universes (raw lists of <= 3 entries over 3 faces x costs {1,2,infinity}; concatenations of <= 2 (best, second-best) pairs, duplicates included), the same without state merging to depth 3/4 passes, and passes that change more routes than the command queue holds with the real management loop in a goroutine and the slowest admissible forwarder",
 		Extra: func(rep *report.Reporter, cov report.Coverage) {
 			cov["configs_computed_by_plain_reexecution_after_restore_mismatch"] = dvsim.FallbackConfigs("C19")
 			runComponentLevel(rep, cov)
 		},
 		Assumptions: []string{
 			"harness network: prefix sync state vectors and prefix data Interests reach any router connected over live links; a fetch for an unreachable or stopped router times out",
-			"tasks spawned by one event run to quiescence in FIFO order before the next event; the mirror clause is evaluated at quiescence",
+			"tasks spawned by one event run to quiescence in FIFO order before the next event, except in mirror-hold, where ONE operation per history (deviation) runs with the tasks spawned from one go-statement site (the ribUpdate of advertDataHandler; the fibUpdate/notify/fetch closure of ribUpdate; the fibUpdate closure of checkDeadNeighbors; the fibUpdate of processPrefixData; the fetch and fibUpdate of advertSyncOnInterest) and everything queued behind them held back past arbitrary later events until the event Rl, or DcR (the held tasks race checkDeadNeighbors for dv.mutex with real goroutines: pre-lock part, dead check, rest); other preemption points and other task orders are not modelled; the mirror clause is evaluated at quiescence (nothing queued, nothing held), and the closure releases held tasks first",
 			"the publisher model (announced set per sequence number) is read from the publisher's own prefix table right after each readvertise command returns",
 			"a restarted router boots with a millisecond clock more than 100 beyond every prefix sequence number of its previous incarnation",
 			"equal canonical state (C18 routing canon + prefix tables with log positions as saturated distances, installed entries, reference routes, parked fetches, unfetched log suffix) implies equal futures; SvSync suppression state is not part of it (it only gates the emission of Sync Interests, which are harness events)",
 			"the route table is replayed from the commands the REAL nfdc management loop (NfdMgmtThread.Start, one real goroutine per router, synchronised by a barrier command after every event) hands to the engine's ExecMgmtCmd, not from the queue contents",
 			"where per-neighbour costs tie, every tied neighbour is accepted as best / second-best next hop; the from-scratch computation uses the per-neighbour costs of the RIB entries, not their stored next-hop fields",
 			"the forwarder accepts every management command except under the deviation Fm (one rib command of one router rejected once; quick: <= 1 per history, thorough: <= 2); the mirror clause is evaluated when no retry timer of the code under test is pending (virtual time is advanced until they have run)",
-			"router names have two components (/ndn/rN) except in log-pair (/ndn/site/dept/rN)",
+			"router names have two components (/ndn/rN) except in log-pair (/ndn/site/dept/rN); announced prefixes are /p1../p3 except in mirror-names / mirror-names3 (\"/\", /ndn, /ndn/r1, /ndn/rN/32=DV) and fib-steps-names (\"/\", a name with one empty component, a two-component name)",
 			"component level (fib-*): the installer is driven with the call sequence of Router.fibUpdate (UnmarkAll; once per name of the desired map: UpdateH, MarkH if it returned true; RemoveUnmarked); the mirror clause is evaluated at the end of each pass (the pass runs under the router mutex), against the lists of that pass alone; the canonical state leaves out the private previous-cost field (overwritten before it is read by the next UpdateH) - audited by fib-steps-prevcost, which includes it, and by the searches without state merging",
 			"component level, small universes: the commands are taken from the queue without the management goroutine (VerifDrain); fib-large runs the real NfdMgmtThread.Start in a goroutine on a harness engine that holds the first command of a pass until the goroutine running the pass is blocked on the queue (runtime.Stack state 'chan send' / 'select') or the pass has returned - a forced schedule, no wall-clock oracle (two wall-clock hang guards of 30 s / 60 s exist; their trips are counted in the evidence and are 0); the queue capacity is a literal in NewNfdMgmtThread, so it is read from the live object (cap of the channel) and the table is sized capacity + 9 names",
 			"successor states are computed by restoring saved table contents into the live router objects and executing one operation; restores are cross-checked against plain re-execution (first 25 and every 400th per worker)",
